@@ -70,7 +70,20 @@ pub fn make_input_class(id: String, src: &Source, rng: &mut Rng, c2d_false: bool
         let e = format!("c2d keep_true={} keep_false={}", co.keep_true as u8, co.keep_false as u8);
         ("c2d", emit_c2d(&dag, src.n, &co), e)
     } else {
-        ("d4", emit_d4(&dag, &opts, rng), String::new())
+        if rng.chance(1, 8) {
+            let dag2 = crate::gen::add_trivial_ands(&dag, rng);
+            ("d4", emit_d4(&dag2, &opts, rng), "d4 trivial and-components (and-nodes over t only / with an extra t child)".to_string())
+        } else {
+            ("d4", emit_d4(&dag, &opts, rng), String::new())
+        }
+    };
+    // a separate class: a single-child and node (optionally above a single-child or node) on top of the root
+    // (c2d only: d4's own root is always `o 1 0`; an `a` root above it is outside d4's conventions)
+    let (lines, extra) = if !c2d_false && format == "c2d" && rng.chance(1, 5) {
+        let two = rng.coin();
+        (wrap_root(format, &lines, two), format!("{} root wrapped in {}", extra, if two { "and(or(.))" } else { "and(.)" }))
+    } else {
+        (lines, extra)
     };
     Some(Input {
         id,
@@ -80,6 +93,55 @@ pub fn make_input_class(id: String, src: &Source, rng: &mut Rng, c2d_false: bool
         desc: format!("{} | {} {}", src.desc, opts.describe(), extra),
         models,
     })
+}
+
+/// the same function with a single-child And root (two = and(or(root))) on top
+pub fn wrap_root(format: &str, lines: &[String], two: bool) -> Vec<String> {
+    let k: i64 = if two { 2 } else { 1 };
+    if format == "c2d" {
+        let h: Vec<i64> = lines[0].split_whitespace().skip(1).map(|t| t.parse().unwrap()).collect();
+        let (v, e, n) = (h[0], h[1], h[2]);
+        let mut out = vec![format!("nnf {} {} {}", v + k, e + k, n)];
+        out.extend(lines[1..].iter().cloned());
+        if two {
+            out.push(format!("O 0 1 {}", v - 1));
+            out.push(format!("A 1 {}", v));
+        } else {
+            out.push(format!("A 1 {}", v - 1));
+        }
+        out
+    } else {
+        // d4: the root is the first declared node; ids are positions, so every id moves up by k
+        let mut out = vec!["a 1 0".to_string()];
+        if two {
+            out.push("o 2 0".to_string());
+        }
+        let mut first_decl_done = false;
+        for l in lines {
+            let t: Vec<&str> = l.split_whitespace().collect();
+            if t.is_empty() {
+                continue;
+            }
+            if t[0].parse::<i64>().is_ok() {
+                let from: i64 = t[0].parse().unwrap();
+                let to: i64 = t[1].parse().unwrap();
+                out.push(format!("{} {} {}", from + k, to + k, t[2..].join(" ")));
+            } else {
+                let id: i64 = t[1].parse().unwrap();
+                out.push(format!("{} {} 0", t[0], id + k));
+                if !first_decl_done {
+                    first_decl_done = true;
+                    if two {
+                        out.push("1 2 0".to_string());
+                        out.push("2 3 0".to_string());
+                    } else {
+                        out.push("1 2 0".to_string());
+                    }
+                }
+            }
+        }
+        out
+    }
 }
 
 /// stream of source formulas: exhaustive small functions first, then random CNFs
